@@ -62,6 +62,12 @@ VARIANTS = {
         },
         bin="x86_64-unknown-linux-gnu/debug/verif-shim",
     ),
+    # coverage-instrumented build (development aid, tools/coverage.sh): VERIF_COVERAGE=1 maps the debug stages onto it
+    "cov": dict(
+        cmd=["cargo", "+nightly", "build", "--offline"],
+        env={"RUSTFLAGS": "--cfg physis_verif --cfg verif_cov -Cinstrument-coverage", "LLVM_PROFILE_FILE": os.path.join(VERIF, ".build", "cov-build-%p.profraw")},
+        bin="debug/verif-shim",
+    ),
     # the UB / leak interpreter: no binary of its own, the worker is `cargo miri run` of the same shim (interactive protocol
     # over stdin works with isolation disabled); the build step interprets an empty script so that everything is compiled once
     "miri": dict(
@@ -169,6 +175,8 @@ class Worker:
             env["ASAN_SYMBOLIZER_PATH"] = shutil.which("llvm-symbolizer-14") or shutil.which("llvm-symbolizer") or ""
         if self.variant == "miri":
             env.update(_cargo_env(dict(VARIANTS["miri"]["env"], CARGO_TARGET_DIR=os.path.join(BUILD, "miri"))))
+        if self.variant == "cov":
+            env["LLVM_PROFILE_FILE"] = os.path.join(BUILD, "cov-profiles", "%p-%m.profraw")
         env.update(self.extra_env)
         self.errf = open(self.errpath, "wb")
         self.proc = subprocess.Popen(
@@ -757,6 +765,8 @@ def run_property(modname, prop, tier, seed, plan):
     """plan: list of (variant, nshards, params) stages; returns merged Stats"""
     total = Stats()
     jobs = []
+    if os.environ.get("VERIF_COVERAGE"):
+        plan = [("cov", n, p) for v, n, p in plan if v == "debug"]
     for variant, nshards, params in plan:
         try:
             build(variant, quiet=False)
@@ -818,8 +828,9 @@ def finish(prop, level, tier, seed, stats, rule, t0, assumptions=(), exhaustive=
         property_id=prop, tier=tier, seed=seed, level=level, coverage=coverage,
         assumptions=list(assumptions), wall_s=round(time.time() - t0, 2), violations=len(seen),
     )
-    os.makedirs(os.path.join(VERIF, "evidence"), exist_ok=True)
-    with open(os.path.join(VERIF, "evidence", prop + ".json"), "w") as f:
+    evdir = os.path.join(VERIF, "evidence") if not os.environ.get("VERIF_NO_EVIDENCE") else os.path.join(VERIF, ".work", "evidence-scratch")
+    os.makedirs(evdir, exist_ok=True)
+    with open(os.path.join(evdir, prop + ".json"), "w") as f:
         json.dump(ev, f, indent=1, default=str)
     print("[%s] tier=%s seed=%d evaluations=%d distinct_nontrivial=%d classes=%d violations=%d known=%d inconclusive=%d wall=%.1fs"
           % (prop, tier, seed, stats.evaluations, len(stats.nontrivial) + stats.nontrivial_n, len(stats.classes), len(seen), len(stats.known), inc, time.time() - t0))
